@@ -22,28 +22,28 @@ private theorem dec_natCast_le (a b : Nat) : decide ((a : Int) ≤ (b : Int)) = 
 /-! ### selection: hazards and loop exits (C01, C02, C03) -/
 
 theorem detector_leaves :
-    Gen.initialGap_leaves = ["item.latestSelectedTransaction == nil : Bool", "item.currentTransactionNonce : Int", "senderNonce : Int"] ∧
-    Gen.middleGap_leaves = ["item.latestSelectedTransaction == nil : Bool", "item.currentTransactionNonce : Int", "item.latestSelectedTransactionNonce : Int"] ∧
+    Gen.initialGap_leaves = ["item.currentTransactionNonce : Int", "item.latestSelectedTransaction == nil : Bool", "senderNonce : Int"] ∧
+    Gen.middleGap_leaves = ["item.currentTransactionNonce : Int", "item.latestSelectedTransaction == nil : Bool", "item.latestSelectedTransactionNonce : Int"] ∧
     Gen.lowerNonce_leaves = ["item.currentTransactionNonce : Int", "senderNonce : Int"] ∧
-    Gen.nonceDuplicate_leaves = ["item.latestSelectedTransaction == nil : Bool", "item.currentTransactionNonce : Int", "item.latestSelectedTransactionNonce : Int"] :=
+    Gen.nonceDuplicate_leaves = ["item.currentTransactionNonce : Int", "item.latestSelectedTransaction == nil : Bool", "item.latestSelectedTransactionNonce : Int"] :=
   ⟨rfl, rfl, rfl, rfl⟩
 
 /-- the four nonce tests of `classify` are `detectInitialGap`, `detectMiddleGap`, `detectLowerNonce`, `detectNonceDuplicate` -/
 theorem initialGap_eq (latest : Option Nat) (cur n : Nat) :
-    (latest.isNone && decide (cur > n)) = Gen.initialGap latest.isNone cur n := by
+    (latest.isNone && decide (cur > n)) = Gen.initialGap (item_latestSelectedTransaction_nil := latest.isNone) (item_currentTransactionNonce := cur) (senderNonce := n) := by
   cases latest <;> simp [Gen.initialGap]
 theorem middleGap_eq (latest : Option Nat) (cur : Nat) :
-    (match latest with | some l => decide (cur > l + 1) | none => false) = Gen.middleGap latest.isNone cur (latest.getD 0 : Nat) := by
+    (match latest with | some l => decide (cur > l + 1) | none => false) = Gen.middleGap (item_latestSelectedTransaction_nil := latest.isNone) (item_currentTransactionNonce := cur) (item_latestSelectedTransactionNonce := (latest.getD 0 : Nat)) := by
   cases latest with
   | none => simp [Gen.middleGap]
   | some l =>
     simp only [Gen.middleGap, Option.isNone_some, Option.getD_some, Bool.false_eq_true, ↓reduceIte, gt_iff_lt]
     have : ((l : Int) + (1 : Int)) = ((l + 1 : Nat) : Int) := by simp
     rw [this, dec_natCast_lt]
-theorem lowerNonce_eq (cur n : Nat) : decide (cur < n) = Gen.lowerNonce cur n := by
+theorem lowerNonce_eq (cur n : Nat) : decide (cur < n) = Gen.lowerNonce (item_currentTransactionNonce := cur) (senderNonce := n) := by
   simp [Gen.lowerNonce]
 theorem nonceDuplicate_eq (latest : Option Nat) (cur : Nat) :
-    (match latest with | some l => decide (cur = l) | none => false) = Gen.nonceDuplicate latest.isNone cur (latest.getD 0 : Nat) := by
+    (match latest with | some l => decide (cur = l) | none => false) = Gen.nonceDuplicate (item_latestSelectedTransaction_nil := latest.isNone) (item_currentTransactionNonce := cur) (item_latestSelectedTransactionNonce := (latest.getD 0 : Nat)) := by
   cases latest with
   | none => simp [Gen.nonceDuplicate]
   | some l =>
@@ -51,13 +51,12 @@ theorem nonceDuplicate_eq (latest : Option Nat) (cur : Nat) :
     apply decide_eq_decide.mpr; omega
 
 theorem feeExceedsBalance_leaves :
-    Gen.feeExceedsBalance_leaves = ["tx.Fee : Int", "fee == nil : Bool", "tx.FeePayer : Int", "sessionWrapper.getAccountRecord(feePayer) : Int",
-      "feePayerRecord.consumedBalance : Int", "feePayerRecord.initialBalance : Int"] := rfl
+    Gen.feeExceedsBalance_leaves = ["fee == nil : Bool", "feePayerRecord.consumedBalance : Int", "feePayerRecord.initialBalance : Int", "sessionWrapper.getAccountRecord(feePayer) : Int", "tx.Fee : Int", "tx.FeePayer : Int"] := rfl
 
 /-- `detectWillFeeExceedBalance` (math/big): the FEE PAYER's consumed balance plus this fee exceeds its initial balance —
     strictly, on unbounded integers; the record consulted is `getAccountRecord(tx.FeePayer)` (pinned by the leaves) -/
 theorem feeExceedsBalance_eq (consumed fee balance : Nat) (d1 d2 : Int) :
-    decide (consumed + fee > balance) = Gen.feeExceedsBalance fee false d1 d2 consumed balance := by
+    decide (consumed + fee > balance) = Gen.feeExceedsBalance (tx_Fee := fee) (fee_nil := false) (tx_FeePayer := d1) (sessionWrapper_getAccountRecord_feePayer := d2) (feePayerRecord_consumedBalance := consumed) (feePayerRecord_initialBalance := balance) := by
   unfold Gen.feeExceedsBalance Gen.cmpInt
   simp only [Bool.false_eq_true, ↓reduceIte]
   apply decide_eq_decide.mpr
@@ -72,12 +71,12 @@ theorem feeExceedsBalance_eq (consumed fee balance : Nat) (d1 d2 : Int) :
 /-- `classify` written with the generated detectors (so: the model's classification IS the code's sequence of tests) -/
 theorem classify_uses_generated_detectors (s : TxCache.Session) (consumed : Bytes → Nat) (it : TxCache.HItem) :
     TxCache.classify s consumed it =
-      (if Gen.initialGap it.latest.isNone it.cur.nonce (s.nonce it.cur.sender) then .dropSender
-       else if Gen.middleGap it.latest.isNone it.cur.nonce (it.latest.getD 0 : Nat) then .dropSender
-       else if Gen.feeExceedsBalance it.cur.fee false 0 0 (consumed it.cur.payer) (s.balance it.cur.payer) then .dropSender
-       else if Gen.lowerNonce it.cur.nonce (s.nonce it.cur.sender) then .skipTx
+      (if Gen.initialGap (item_latestSelectedTransaction_nil := it.latest.isNone) (item_currentTransactionNonce := it.cur.nonce) (senderNonce := (s.nonce it.cur.sender)) then .dropSender
+       else if Gen.middleGap (item_latestSelectedTransaction_nil := it.latest.isNone) (item_currentTransactionNonce := it.cur.nonce) (item_latestSelectedTransactionNonce := (it.latest.getD 0 : Nat)) then .dropSender
+       else if Gen.feeExceedsBalance (tx_Fee := it.cur.fee) (fee_nil := false) (tx_FeePayer := 0) (sessionWrapper_getAccountRecord_feePayer := 0) (feePayerRecord_consumedBalance := (consumed it.cur.payer)) (feePayerRecord_initialBalance := (s.balance it.cur.payer)) then .dropSender
+       else if Gen.lowerNonce (item_currentTransactionNonce := it.cur.nonce) (senderNonce := (s.nonce it.cur.sender)) then .skipTx
        else if s.badGuard it.cur then .skipTx
-       else if Gen.nonceDuplicate it.latest.isNone it.cur.nonce (it.latest.getD 0 : Nat) then .skipTx
+       else if Gen.nonceDuplicate (item_latestSelectedTransaction_nil := it.latest.isNone) (item_currentTransactionNonce := it.cur.nonce) (item_latestSelectedTransactionNonce := (it.latest.getD 0 : Nat)) then .skipTx
        else .take) := by
   unfold TxCache.classify
   dsimp only
@@ -85,15 +84,13 @@ theorem classify_uses_generated_detectors (s : TxCache.Session) (consumed : Byte
   rfl
 
 theorem selectionStops_leaves :
-    Gen.selectionStops_leaves = ["gasLimit : Int", "gasRequested : Int", "accumulatedGas : Int", "len(selectedTransactions) : Int",
-      "maxNum : Int", "selectionLoopDurationCheckInterval : Int", "time.Since(selectionLoopStartTime) : Int",
-      "selectionLoopMaximumDuration : Int"] := rfl
+    Gen.selectionStops_leaves = ["accumulatedGas : Int", "gasLimit : Int", "gasRequested : Int", "len(selectedTransactions) : Int", "maxNum : Int", "selectionLoopDurationCheckInterval : Int", "selectionLoopMaximumDuration : Int", "time.Since(selectionLoopStartTime) : Int"] := rfl
 
 /-- the three `break` conditions of the selection loop, in source order, are the three stops of `selectLoop`
     (gas budget — in the repaired, non-wrapping form, valid because the loop keeps `acc ≤ gasReq` —, count budget, time budget
     consulted every `interval` selections; the stop oracle stands for `time.Since(start) > maximumDuration`) -/
 theorem selectionStops_eq (gasLimit gasReq acc len maxNum interval : Nat) (since maxDur : Int) :
-    Gen.selectionStops gasLimit gasReq acc len maxNum interval since maxDur =
+    Gen.selectionStops (gasLimit := gasLimit) (gasRequested := gasReq) (accumulatedGas := acc) (len_selectedTransactions := len) (maxNum := maxNum) (selectionLoopDurationCheckInterval := interval) (time_Since_selectionLoopStartTime := since) (selectionLoopMaximumDuration := maxDur) =
       [TxCache.gasExceeded TxCache.Variant.current acc gasLimit gasReq, decide (len ≥ maxNum),
        (decide (len % interval = 0) && decide (since > maxDur))] := by
   simp only [Gen.selectionStops, TxCache.gasExceeded, TxCache.Variant.current, Bool.false_eq_true, ↓reduceIte]
